@@ -5,6 +5,11 @@ use super::{
 use crossbeam_channel::{Receiver, Sender};
 use threadpool::ThreadPool;
 
+// verification hook: inside this module `libc::pread` / `libc::pwrite` are the wrappers of
+// `verif_libc` (pass-through unless the thread installed a script of syscall results).
+#[cfg(nomt_verif)]
+use self::verif_libc as libc;
+
 pub fn check_iou_permissions() -> super::IoUringPermission {
     super::IoUringPermission::NotSupported
 }
@@ -100,4 +105,85 @@ fn execute(mut command: IoCommand) -> CompleteIo {
     };
 
     CompleteIo { command, result }
+}
+
+/// Verification hook (compiled only with `--cfg nomt_verif`): the real [`execute`] with `pread` /
+/// `pwrite` logged and, when the calling thread installed a script, answered from the script
+/// (`(return value, errno)` per call) instead of by the kernel.
+#[cfg(nomt_verif)]
+pub mod verif_libc {
+    pub use ::libc::{c_int, c_void, off_t, size_t, ssize_t};
+    use std::cell::RefCell;
+
+    /// One `pread` / `pwrite` call of `execute`: what was asked and what came back.
+    #[derive(Debug, Clone, PartialEq, Eq)]
+    pub struct Call {
+        pub write: bool,
+        pub fd: c_int,
+        pub len: usize,
+        pub off: i64,
+        pub res: isize,
+        pub errno: i32,
+    }
+
+    thread_local! {
+        static SCRIPT: RefCell<Option<std::collections::VecDeque<(isize, i32)>>> = RefCell::new(None);
+        static LOG: RefCell<Vec<Call>> = RefCell::new(Vec::new());
+    }
+
+    fn scripted() -> Option<(isize, i32)> {
+        SCRIPT.with(|s| s.borrow_mut().as_mut().and_then(|q| q.pop_front()))
+    }
+
+    fn finish(write: bool, fd: c_int, len: size_t, off: off_t, res: ssize_t) -> ssize_t {
+        let errno = unsafe { *::libc::__errno_location() };
+        LOG.with(|l| {
+            l.borrow_mut().push(Call {
+                write,
+                fd,
+                len: len as usize,
+                off: off as i64,
+                res: res as isize,
+                errno: if res == -1 { errno } else { 0 },
+            })
+        });
+        // logging must not clobber what `last_os_error` is about to read
+        unsafe { *::libc::__errno_location() = errno };
+        res
+    }
+
+    pub unsafe fn pread(fd: c_int, buf: *mut c_void, len: size_t, off: off_t) -> ssize_t {
+        let res = match scripted() {
+            Some((res, errno)) => {
+                *::libc::__errno_location() = errno;
+                res as ssize_t
+            }
+            None => ::libc::pread(fd, buf, len, off),
+        };
+        finish(false, fd, len, off, res)
+    }
+
+    pub unsafe fn pwrite(fd: c_int, buf: *const c_void, len: size_t, off: off_t) -> ssize_t {
+        let res = match scripted() {
+            Some((res, errno)) => {
+                *::libc::__errno_location() = errno;
+                res as ssize_t
+            }
+            None => ::libc::pwrite(fd, buf, len, off),
+        };
+        finish(true, fd, len, off, res)
+    }
+
+    /// The real `execute` on `command`; the first `script.len()` syscalls are answered from the
+    /// script, later ones by the kernel. Returns the completion and every syscall made.
+    pub fn run_execute(
+        command: super::IoCommand,
+        script: Option<Vec<(isize, i32)>>,
+    ) -> (super::CompleteIo, Vec<Call>) {
+        SCRIPT.with(|s| *s.borrow_mut() = script.map(Into::into));
+        LOG.with(|l| l.borrow_mut().clear());
+        let complete = super::execute(command);
+        SCRIPT.with(|s| *s.borrow_mut() = None);
+        (complete, LOG.with(|l| std::mem::take(&mut *l.borrow_mut())))
+    }
 }
